@@ -21,15 +21,15 @@ TABLE = {
     "C03": dict(engine="E1 regx + E2 histx", technique="bounded-exhaustive exploration of all registries: every definition's next pointer after the real update vs reference model",
                 text="Every definition of every registry in bounds: the next slot written by the real update equals the model's 'most specific strictly more general definition' / not_implemented / ambiguous.", ref="3/C03"),
     "C04": dict(engine="E1 regx", technique="bounded-exhaustive exploration of lattices x method sets x presentations: slot invariants from the real compiler object + bounds-checked table walk + ASan on the real resolve",
-                text="Every lattice up to the bounds x every assignment of parameter classes to three methods x complete/direct-only base lists x both record orders: each (method,parameter) applicable to a class has its own in-range cell; a bounds-checked re-implementation of the table walk stays inside dispatch_data and agrees with the real resolve, which also runs under AddressSanitizer.", ref="3/C04"),
+                text="Every lattice up to the bounds x every assignment of parameter classes to three methods x complete / direct-only / split base lists x both record orders x every assignment of abstract flags: each (method,parameter) applicable to a class has its own in-range cell; a bounds-checked re-implementation of the table walk stays inside dispatch_data and agrees with the real resolve, which also runs under AddressSanitizer.", ref="3/C04"),
     "C06": dict(engine="E1 regx", technique="exhaustive enumeration of registration-order permutations (classes x methods x definitions x base-list rotations) of every registry in bounds, differential + reference model",
                 text="For every registry in bounds all permutations of class records (n<=4) / reversal and rotations (n=5), all definition orders, both method orders: every observable equals the first permutation's and the order-free model's.", ref="3/C06"),
-    "C07": dict(engine="E2 histx", technique="explicit-state BFS over registration/update histories on the real catalogs and update (state = history replayed in a forked pristine process, dedup on live catalogs + persistent implementation state), 5 RTTI/hash flavours; reference model + differential vs fresh process + idempotence",
-                text="All histories up to depth 5 (6 thorough) from the empty state and depth 4 (5) from the fully registered state over 12 operations (toggle 5 class records, 2 methods, 4 definitions; update): after every update the predicted success/error, every legal call and next vs the model and vs a fresh process given the same registrations, and a second update changes nothing.", ref="3/C07"),
+    "C07": dict(engine="E2 histx", technique="explicit-state BFS over registration/update histories on the real catalogs and update (state = history replayed in a forked pristine process, dedup on live catalogs + persistent implementation state), 7 policy flavours (std / integer / deferred ids, with and without hash, map, indirect); reference model + differential vs fresh process + idempotence",
+                text="All histories up to depth 5 (6 thorough) from the empty state and depth 4 (5) from the fully registered state and from two partially registered states over 12 operations (toggle 5 class records, 2 methods, 4 definitions; update): after every update the predicted success/error, every legal call and next vs the model and vs a fresh process given the same registrations, and a second update changes nothing.", ref="3/C07"),
     "C08": dict(engine="E1 regx", technique="exhaustive enumeration of presentations of every inheritance graph in bounds (subsets between direct and transitive bases, self, duplicates, split records, rotations, record orders)",
                 text="For every poset in bounds every presentation: the lattice the real compiler reconstructs (covariant sets, direct bases), slot disjointness, dispatch and next all equal the model's.", ref="3/C08"),
     "C09": dict(engine="E5 progx (+E1 virtual_ptr shapes)", technique="exhaustive enumeration inside generated programs over real class lattices: policies x definition subsets x (static, pointee) class pairs x construction routes, differential against the plain-reference twin method; exhaustive short histories for pointer validity across updates",
-                text="For four real lattices (incl. virtual inheritance and non-zero base offsets) every construction route of virtual_ptr / virtual_shared_ptr for every (static, pointee) pair under four policies and all 16 definition subsets dispatches like a plain reference and gives back the original object; every history up to depth 4 (5) of definition changes, updates, pointer creations and calls keeps earlier pointers valid as documented (across updates when indirect).", ref="3/C09",
+                text="For five real lattices (incl. virtual inheritance, non-zero base offsets and an abstract class whose constructors dispatch) every construction route (incl. const-qualified pointees, final on smart pointers, move / assignment) of virtual_ptr / virtual_shared_ptr for every (static, pointee) pair under four policies and all 16 definition subsets dispatches like a plain reference and gives back the original object; every history up to depth 4 (5) of definition changes, updates, pointer creations and calls keeps earlier pointers valid as documented (across updates when indirect).", ref="3/C09",
                 note="Trusted base: g++ 12, e5/vptr.cpp. The twin virtual_<T&> method is itself validated by C01."),
     "C10": dict(engine="E1 regx", technique="bounded-exhaustive exploration of the same registries under six RTTI flavours (std, integer, many-to-one projection with/without hash, deferred with/without hash), all alias assignments, second update; reference model + cross-flavour digest",
                 text="Every registry in bounds is compiled and called under each RTTI flavour, each followed by a second update; for the two-ids-per-class flavours every assignment of aliases to every use of a class id (exhaustive up to 2^10..2^12, patterns beyond) and every alias of every argument. All outcomes equal the model and a digest of all outcomes is identical across flavours.", ref="3/C10"),
@@ -37,7 +37,7 @@ TABLE = {
                 text="Every registry in bounds: the numbers the real generator writes equal, position by position, what update installed; fed back as static offsets every legal tuple dispatches like the model (release and debug policies); every perturbed number is rejected by the debug consistency check with the right error before a definition runs.", ref="3/C12"),
     "C13": dict(engine="E1 regx", technique="bounded-exhaustive exploration of lattices x method sets: emitted text parsed, reference decoder (exact consumption, in-place safety), real decoder between guard pages, dispatch after decode vs after update vs model",
                 text="Every registry in bounds (incl. unused classes, first slot != 0, error cells): the emitted structure has non-negative sizes and fitting initialisers; decoding consumes exactly the emitted codes, never overwrites unread input, stays inside the structure (guard pages, ASan build), and afterwards every legal tuple dispatches exactly as after update.", ref="3/C13"),
-    "C14": dict(engine="E2 iso", technique="exhaustive enumeration of all operation sequences (interleavings) up to a depth over 2-3 policies sharing classes, snapshot-invariance of every non-acting policy after each operation + reference model",
+    "C14": dict(engine="E2 iso", technique="exhaustive enumeration of all operation sequences (interleavings) up to a depth over 2-3 policies sharing classes (rebound, replaced facets, two-argument facets, the two stock policies themselves), snapshot-invariance of every non-acting policy after each operation + reference model",
                 text="Every sequence of <= 4 (5) operations over two policies (3 in thorough) from the pristine state and <= 3 (4) from a fully set-up policy, 10 operations per policy incl. real class_declaration objects, real add_function with a shared function, update, handler installation, virtual_ptr creation: no operation on one policy changes any observable of another.", ref="3/C14",
                 note="Trusted base: compiler, harness e2/iso.cpp. Worlds are reset explicitly between sequences; policies come from rebind/replace as documented."),
     "C15": dict(engine="E1 regx", technique="bounded-exhaustive exploration: every registry x every class left out x every place and argument route, on the stock debug policy, with AddressSanitizer as crash/garbage-read monitor",
